@@ -560,6 +560,9 @@ class CAnalysis:
             if init:
                 st = self.exec_stmt(init, [st])[0]
             c = strip(cond) if cond else None
+            if c and c.get("kind") == "BinaryOperator" and c.get("opcode") in (">", ">=") and strip(c["inner"][1]).get("kind") == "DeclRefExpr":
+                # mirrored form `bound > i`: same loop
+                c = dict(c, opcode={">": "<", ">=": "<="}[c["opcode"]], inner=[c["inner"][1], c["inner"][0]])
             if not (
                 c
                 and c.get("kind") == "BinaryOperator"
